@@ -547,6 +547,17 @@ class Schema(ResolverMap):
             query_type=self.query_type,
             mutation_type=self.mutation_type,
             subscription_type=self.subscription_type,
+            # Types which are not reachable from the root types through fields
+            # (implementations of an interface, types only provided through
+            # ``types``) are part of the schema as well.
+            types=[
+                t
+                for t in self.types.values()
+                if (
+                    t not in SPECIFIED_SCALAR_TYPES
+                    and t not in INTROPSPECTION_TYPES
+                )
+            ],
             nodes=self.nodes,
         )
 
